@@ -222,12 +222,17 @@ def _is_ligature_mark(glyph):
 def _bounds(component, glyph_set):
     """Return the (xmin, ymin) of the bounds of `component`."""
     if hasattr(component, "bounds"):  # e.g. defcon
-        return component.bounds[:2]
+        bounds = component.bounds
     elif hasattr(component, "draw"):  # e.g. ufoLib2
         pen = fontTools.pens.boundsPen.BoundsPen(glyphSet=glyph_set)
         component.draw(pen)
-        return pen.bounds[:2]
+        bounds = pen.bounds
     else:
         raise ValueError(
             f"Don't know to to compute the bounds of component '{component}' "
         )
+    if bounds is None:
+        # the base glyph has no outline: take the point the component moves the
+        # origin to
+        return tuple(component.transformation[4:])
+    return bounds[:2]
